@@ -204,7 +204,7 @@ func (c *Ctx) c09Mem(pm *pairModel) {
 			}
 		})
 	}
-	r.Floor("C09/GUARD/mem", "accesses of Store.boxes", nBoxes, 4)
+	r.Floor("C09/GUARD/mem", "accesses of Store.boxes", nBoxes, 1)
 	// (b) mbox fields
 	modes := c.withMailboxClosures(withMailbox)
 	st := mboxT.Underlying().(*types.Struct)
@@ -288,8 +288,8 @@ func (c *Ctx) c09Mem(pm *pairModel) {
 	if len(bad) == 0 {
 		r.Ok("C09/GUARD/mem", "mbox-fields", p.Pos(withMailbox.Pos()), "%d accesses of mem.mbox fields, all inside withMailbox closures, writes only under writeLock=true (%d closures)", nAcc, len(modes))
 	}
-	r.Floor("C09/GUARD/mem", "accesses of mem.mbox fields", nAcc, 10)
-	r.Floor("C09/GUARD/mem", "closures passed to withMailbox", len(modes), 5)
+	r.Floor("C09/GUARD/mem", "accesses of mem.mbox fields", nAcc, 1)
+	r.Floor("C09/GUARD/mem", "closures passed to withMailbox", len(modes), 1)
 	// (c) withMailbox shape
 	var fcall ssa.Instruction
 	eng.EachInstr(withMailbox, func(in ssa.Instruction) {
@@ -473,7 +473,7 @@ func (c *Ctx) c09Shared(pm *pairModel) {
 			r.Bad("C09/GUARD/shared-message", cons, p.InstrPos(offender.in), "field is written after the message is published (%s) but accessed in %s with neither the mailbox lock nor goroutine confinement: data race", p.InstrPos(writes[0].in), shortFn(offender.fn))
 		}
 	}
-	r.Floor("C09/GUARD/shared-message", "mem.Message fields written after publication", nPost, 2)
+	r.Floor("C09/GUARD/shared-message", "mem.Message fields written after publication", nPost, 1)
 }
 
 func (c *Ctx) c09NoBlock(pm *pairModel) {
@@ -577,7 +577,7 @@ func (c *Ctx) c09NoBlock(pm *pairModel) {
 			r.Ok("C09/NOBLOCK", "file:"+shortFn(fn), p.Pos(fn.Pos()), "no lock-taking function reachable while the bucket lock is held")
 		}
 	}
-	r.Floor("C09/NOBLOCK", "file functions taking the bucket lock", n, 6)
+	r.Floor("C09/NOBLOCK", "file functions taking the bucket lock", n, 1)
 }
 
 func (c *Ctx) c09File(pm *pairModel) {
@@ -744,7 +744,7 @@ func (c *Ctx) c09File(pm *pairModel) {
 			r.Ok("C09/GUARD/file", shortFn(fn), p.Pos(fn.Pos()), "%d mbox operations, all under the bucket lock in the required mode; released on all exits", calls)
 		}
 	}
-	r.Floor("C09/GUARD/file", "file.Store methods using an mbox", n, 7)
+	r.Floor("C09/GUARD/file", "file.Store methods using an mbox", n, 1)
 	c.c09Bucket()
 
 	// visitors
